@@ -221,8 +221,10 @@ pub fn run(seed: u64, ntraces: usize) {
                 let (mut tk, mut nonce) = match r.below(9) { 0 => (b"EGLD".to_vec(), 0u64), 1 => (tok2.clone(), 0), 2 => (sft.clone(), 5), 3 => (sft.clone(), 6), 4 => (sft.clone(), 0), 5 => (b"EGLD".to_vec(), 7), 6 => (tok.clone(), 3), _ => (tok.clone(), 0) };
                 if !credited.is_empty() && (matches!(forced, Some(("refund", _, _, _))) || r.chance(2, 3)) { let (cu, ct, cn) = if forced.is_some() { credited.last().unwrap().clone() } else { r.pick(&credited).clone() }; caller = cu; tk = ct; nonce = cn; if forced.is_none() && r.chance(1, 6) { caller = anyone.clone(); } if forced.is_none() && r.chance(1, 5) { nonce = cn + 1 + r.below(7); } }
                 let mut arg = nested_buf(&tk); arg.extend_from_slice(&nonce.to_be_bytes());
-                step = w.call0(&caller, &gov, "withdrawRefundToken", vec![arg]);
-                opj = json!({"op": "withdrawRefund", "caller": hx(caller.as_bytes()), "token": hx(&tk), "nonce": nonce});
+                // the endpoint takes exactly one (token, nonce): the same credit named twice in one call must be refused as a whole
+                let repeat = forced.is_none() && !credited.is_empty() && r.chance(1, 8);
+                step = w.call0(&caller, &gov, "withdrawRefundToken", if repeat { vec![arg.clone(), arg] } else { vec![arg] });
+                opj = json!({"op": "withdrawRefund", "caller": hx(caller.as_bytes()), "token": hx(&tk), "nonce": nonce, "repeat": repeat});
             } else if k < 19 {
                 let caller = if r.chance(1, 2) { cur_op.clone() } else { anyone.clone() };
                 let a = if forced.is_some() { users[2].clone() } else { match r.below(4) { 0 => VMAddress::zero(), _ => r.pick(&users).clone() } };
